@@ -195,15 +195,15 @@ CLAIMS.update({
     "C07": dict(
         technique="Lean 4 theorems (append-shortcut decision rule; worker-level convergence from the run contracts: bookkeeping survives every run, rebuilding runs repair, incremental runs preserve, quiescent = from scratch) + end-to-end comparison of every quiescent history with a fresh Nucleo",
         text="Theorems: the Update shortcut is taken only for a truthful append onto a column not already due for a rescore whose last atom is positive, not "
-             "postfix/exact, does not end in a backslash and (unless fuzzy) not in an escaped dollar (repair of F9), with decided witnesses that each excluded class is not a "
+             "postfix/exact, does not end in a backslash and (unless fuzzy) not in an escaped dollar (repair of F9), and which keeps normalizing the haystack if it did (repair of F16), with decided witnesses that each excluded class is not a "
              "narrowing; appending text changes only the last atom (companion file C07_Append: the splitter is a left-to-right scan with one bit of state, so every piece of the old "
              "text but the last is a piece of the new text and the atoms parsed from them are the first atoms of the new pattern, unchanged and in order - "
              "C07_append_keeps_earlier_atoms; the narrowing property the shortcut needs therefore concerns the last atom alone, which is what can_append_to inspects; for the fuzzy kind and a fixed "
              "configuration the narrowing is a theorem through the decision theorems of C01 (C07_fuzzy_append_narrows_ascii / _unicode: whatever fuzzy_match finds for n ++ s it finds "
              "for n), and (companion file C07_Narrows) so it is for the two other admitted kinds, through the decision theorems of C05: C07_substring_append_narrows_ascii / _unicode "
              "(an occurrence of n ++ s is an occurrence of n) and C07_prefix_append_narrows; typing an upper-case letter onto a smart-case atom turns ignore_case off and still narrows (companion file C07_SmartCase: the case-insensitive haystack is the "
-             "lower-cased case-sensitive one and the stored needle is its own lower case - fuzzy, substring and prefix atoms, C07_smart_case_flip_narrows_*); only a change of the smart-normalization "
-             "flag by the appended text remains the hypothesis Narrows of the protocol theorem, exercised by the end-to-end oracle); a cancelling tick always hands the worker the current pattern. Convergence at the level of the worker (companion file C07_Quiescent, on the run contracts "
+             "lower-cased case-sensitive one and the stored needle is its own lower case - fuzzy, substring and prefix atoms, C07_smart_case_flip_narrows_*); a change of the smart-normalization flag by the appended text does NOT narrow in general (finding F16, repaired: characters whose case folding and Latin normalization disagree) - the "
+             "repaired rule refuses the shortcut then (model normKept, C07_update_keeps_normalization), so the hypothesis Narrows of the protocol theorem is only needed for edits that keep the flag or drop ignore_case; a cancelling tick always hands the worker the current pattern. Convergence at the level of the worker (companion file C07_Quiescent, on the run contracts "
              "of C06_RunContract): the bookkeeping invariant survives every run, completed or cancelled at any point (BK_run); a completed rebuilding run (rescoring after a "
              "non-appended edit or restart, or the empty pattern) makes the match list right from any such state (C07_rescore_establishes, C07_any_run_then_rescore); completed "
              "incremental runs keep it right (C07_unchanged_preserves, C07_update_preserves - the latter needs exactly the narrowing property the Update rule is about); and a right "
